@@ -32,6 +32,8 @@ CLAIMS["C04"] = ("partial: receive-buffer bound (header first, length bounds dom
     "dominating-guard reasoning, decision-table evaluation of the size check, value-flow bounds of VLA sizes, call-site constant propagation for assert discharge")
 CLAIMS["C10"] = ("partial, strong: 16-cell identity table of the comparator incl. memcmp widths, lookup filters and full-copy of results, twin-container discipline of add/remove/removal-by-source under the write lock, one hash function at every hash-table call, return-code/effect table for duplicate and unknown keys, notification discipline incl. removal by source and the reload diff; tommyds internals (linear-hash split/merge) are not decided",
     "decision tables with opaque memcmp atoms, path-sensitive effect counting and typestate per entry, value flow of hash arguments")
+CLAIMS["C01"] = ("partial: the per-record match table (12 cells), the covering test of the lookup incl. the shape of its bit-extraction atoms, agreement of all five traversals on child polarity and level, and the RFC 6811 result discipline of the validation function incl. reason bookkeeping are decided on all paths; that the trie has the right shape after arbitrary insert/remove histories and the bit arithmetic of the extraction helpers are NOT decided, so this is a necessary-condition check, not a decision of validation correctness",
+    "decision tables over comparison-only inputs with opaque atoms, sibling cross-check of traversals, path-sensitive typestate of the validation loop")
 NA = {}
 def main():
     props = [json.loads(l) for l in open(os.path.join(HERE, "properties.jsonl"))]
